@@ -70,6 +70,8 @@ Extras == <<
   IBegin(Own, 1, 1, 0),
   IGetValues(7, << GvKnown1 >>, 0, 0),
   IGetValues(0, <<>>, 0, 3),
+  \* trailing incomplete pair of 8 bytes which the encoder makes read like a record header (must be ignored, not framed)
+  IGetValues(0, << GvUnk >>, 8, 0),
   IAbort(Other, 0, 0),
   IParams(Other, 3, 5)
 >>
@@ -109,7 +111,8 @@ HostileBases == {
   << IBegin(Own, 1, 1, 0), IGetValues(0, << GvKnown1 >>, 0, 1), IRaw(7, 9, 0, 0, 0) >>,
   << IStream(TStdin, Own, 3, 1), IStream(TData, Own, 0, 0), IAbort(Own, 0, 0), IBegin(Own, 1, 0, 0), IParams(Own, 0, 0) >>,
   << IGetValues(0, << GvKnown1, GvUnk >>, 3, 5), IGetValues(0, << GvKnown4 >>, 0, 0), IBegin(Own, 1, 0, 0), IParams(Own, 0, 0) >>,
-  << IBegin(Own, 1, 1, 0), IParams(Own, 4, 0), IParams(Own, 0, 0), IStream(TStdin, Own, 5, 0), IBegin(Other, 1, 0, 0) >>
+  << IBegin(Own, 1, 1, 0), IParams(Own, 4, 0), IParams(Own, 0, 0), IStream(TStdin, Own, 5, 0), IBegin(Other, 1, 0, 0) >>,
+  << IGetValues(0, << GvKnown1 >>, 8, 0), IGetValues(0, << GvKnown4 >>, 0, 0), IBegin(Own, 1, 0, 0), IParams(Own, 0, 0) >>
 }
 FamHostile ==
   { W(b, << PL[1], PL[5] >>, 0, "hostile", FALSE) : b \in HostileBases }
@@ -128,10 +131,18 @@ FamBound ==
                        : cs \in { <<>>, <<1>>, <<3>>, <<4>>, <<3 + e>>, <<3 + 2 * e>>, <<3 + 2 * e + 1>>, <<P - 1>>, <<2, P - 2>> } }
                   : nv \in (B - 14)..(B - 1) } : e \in {1, 4} }
 
+\* a GetValues record whose body is larger than the whole buffer while every pair of it is inside the bound:
+\* the bound is per pair, not per record (lib.rs MIN_BUF_SIZE rationale), at every gap of a small request
+BigQuery == [i \in 1..(B \div 5 + 2) |-> GvUnk] \o (IF B >= 29 THEN << GvKnown1 >> ELSE <<>>) \o << GvUnk >>
+FamBoundGV ==
+  UNION { LET base == ReqItems(1, 0, 0, 3, cs, <<1>>, 0) IN
+          { W(InsAfter(base, k, IGetValues(0, BigQuery, 0, pad)), << PL[3] >>, 0, "bound", TRUE) : k \in 0..(Len(base) - 1), pad \in {0, 3} }
+          : cs \in { <<>>, <<5>> } }
+
 WireSet ==
   (IF "cuts" \in Menu THEN FamCuts2 ELSE {}) \cup (IF "pad" \in Menu THEN FamPad ELSE {})
   \cup (IF "inter" \in Menu THEN FamInter ELSE {}) \cup (IF "hostile" \in Menu THEN FamHostile ELSE {})
-  \cup (IF "trunc" \in Menu THEN FamTrunc ELSE {}) \cup (IF "bound" \in Menu THEN FamBound ELSE {})
+  \cup (IF "trunc" \in Menu THEN FamTrunc ELSE {}) \cup (IF "bound" \in Menu THEN FamBound \cup FamBoundGV ELSE {})
 WSeq == TLCEval(SetToSeq(WireSet))
 NW == Len(WSeq)
 Wr(i) == WSeq[i].w
